@@ -109,6 +109,11 @@ def hash_shard(config, seed, n_examples, import_ctx="top", long_lengths=()):
         import pysnark.ggh_hash
         return 1
     try:
+        if import_ctx == "reduced-rounds-table":
+            # the program registers its own parameter set for the selected backend before the gadget is imported: fewer rounds
+            # over the same (longer) constant list - round i uses row i, the rows beyond R_F + R_P are simply not used
+            from pysnark.poseidon_constants import poseidon_constants as pc_
+            pc_[config] = dict(pc_[config], R_F=4, R_P=5 + seed % 3)
         if import_ctx == "false-guard":
             rt.guarded(rt.PrivVal(0))(first_import)()
         elif import_ctx == "true-guard":
@@ -134,10 +139,12 @@ def hash_shard(config, seed, n_examples, import_ctx="top", long_lengths=()):
     found = {}
 
     def fail(case, msg, key):
+        if import_ctx == "reduced-rounds-table":
+            case = dict(case, table={"R_F": consts["R_F"], "R_P": consts["R_P"]})
         raise core.Violation(case, msg, key)
 
     # published vectors
-    if config in VECTORS:
+    if config in VECTORS and import_ctx != "reduced-rounds-table":
         env.reset(p, 16, 8)
         out = ph.permute([rt.PrivVal(i) for i in range(5)])
         got = [x.value % p for x in out]
@@ -438,7 +445,11 @@ def replay_inproc(case):
     ns = env.bind(CONFIG_MODULE[config])
     rt = ns.rt
     os.environ["PYSNARK_BACKEND"] = config
+    tbl = case.get("table") or (case.get("calls") or [{}])[0].get("table")
     try:
+        if tbl:
+            from pysnark.poseidon_constants import poseidon_constants as pc_
+            pc_[config] = dict(pc_[config], **tbl)
         import pysnark.poseidon_hash as ph
     finally:
         os.environ.pop("PYSNARK_BACKEND", None)
@@ -476,7 +487,7 @@ def run(ctx):
     jobs = [dict(config=c, seed=ctx.seed * 1000 + 13 * i + k, n_examples=n) for i, c in enumerate(CONFIG_MODULE) for k in range(reps)]
     # the same differential after a first import inside a guarded region / under ignore_errors
     jobs += [dict(config=c, seed=ctx.seed * 1000 + 700 + 7 * i + k, n_examples=5 if ctx.tier == "quick" else 150, import_ctx=ic)
-             for i, c in enumerate(CONFIG_MODULE) for k, ic in enumerate(["false-guard", "true-guard", "ignore", "lazy-branch", "first-call-false-guard", "first-call-true-guard"])]
+             for i, c in enumerate(CONFIG_MODULE) for k, ic in enumerate(["false-guard", "true-guard", "ignore", "lazy-branch", "first-call-false-guard", "first-call-true-guard", "reduced-rounds-table"])]
     for c in CONFIG_MODULE:
         for Ls in ([[256], [257]] if ctx.tier == "quick" else [[255, 256], [257, 258], [300, 513], [1000]]):
             jobs.append(dict(config=c, seed=0, n_examples=0, long_lengths=Ls))
